@@ -378,10 +378,15 @@ func genIdentitySets(rt *rapid.T, fl flavour) [][][]byte {
 			}
 			set = append(set, id)
 		}
+		if len(set) < 3 && (fl != flGnosis || len(set) >= 2) && rapid.IntRange(0, 3).Draw(rt, fmt.Sprintf("repeat%d", si)) == 0 {
+			// the same identity twice in one request (Gnosis: one sender submitted the same prefix twice;
+			// the validators only refuse descending neighbours)
+			set = append(set, set[len(set)-1])
+		}
 		sort.Slice(set, func(i, j int) bool { return bytes.Compare(set[i], set[j]) < 0 })
 		sets = append(sets, set)
 	}
-	if len(sets) == 2 && len(sets[0]) >= 2 && rapid.IntRange(0, 1).Draw(rt, "overlap") == 0 {
+	if len(sets) == 2 && len(sets[0]) >= 2 && !setRepeats(sets) && rapid.IntRange(0, 1).Draw(rt, "overlap") == 0 {
 		// (neither request is a subset of the other, so a keyper asked for both answers both and a node
 		// completes each request exactly when it holds t share messages of that request)
 		// the second request repeats an identity of the first one (a keyper is asked again before the first
@@ -411,14 +416,25 @@ func genIdentitySets(rt *rapid.T, fl flavour) [][][]byte {
 	return sets
 }
 
-func setsOverlap(sets [][][]byte) bool {
-	seen := map[string]bool{}
+func setRepeats(sets [][][]byte) bool {
 	for _, set := range sets {
-		for _, id := range set {
-			if seen[string(id)] {
+		for j := 1; j < len(set); j++ {
+			if bytes.Equal(set[j-1], set[j]) {
 				return true
 			}
-			seen[string(id)] = true
+		}
+	}
+	return false
+}
+
+func setsOverlap(sets [][][]byte) bool {
+	seen := map[string]int{}
+	for si, set := range sets {
+		for _, id := range set {
+			if prev, ok := seen[string(id)]; ok && prev != si {
+				return true
+			}
+			seen[string(id)] = si
 		}
 	}
 	return false
@@ -505,6 +521,9 @@ func runC03Schedule(rt *rapid.T, rec *Recorder, fl flavour) {
 	}
 	if setsOverlap(sets) {
 		labels = append(labels, "requests-share-an-identity")
+	}
+	if setRepeats(sets) {
+		labels = append(labels, "identity-repeated-in-request")
 	}
 	if len(earlyAsk) > 0 {
 		labels = append(labels, "restarted-eon-after-early-request")
